@@ -51,8 +51,41 @@ fn canon(r : &Rule) -> (BTreeSet<String>, BTreeSet<String>, Vec<String>)
 fn mutate(rng : &mut Rng, a : &Rule) -> (Rule, &'static str)
 {
     let mut b = a.clone();
-    let kind = match rng.below(16)
+    let kind = match rng.below(18)
     {
+        16 | 17 =>
+        {
+            // the command's characters cut into lines differently: [ab, c] vs [a, bc] vs [abc] - written back to back the
+            // lines spell the same string, so only the line breaks tell the commands apart
+            let joined : String = b.command.concat();
+            let chars : Vec<char> = joined.chars().collect();
+            let mut done = false;
+            if chars.len() >= 2
+            {
+                for _ in 0..20
+                {
+                    let parts = rng.range(1, chars.len().min(b.command.len() + 1));
+                    let mut cuts : Vec<usize> = (1..chars.len()).collect();
+                    rng.shuffle(&mut cuts);
+                    cuts.truncate(parts - 1);
+                    cuts.sort();
+                    let mut pieces : Vec<String> = vec![];
+                    let mut start = 0;
+                    for c in cuts.iter().chain(std::iter::once(&chars.len()))
+                    {
+                        pieces.push(chars[start..*c].iter().collect());
+                        start = *c;
+                    }
+                    if pieces != b.command && pieces.iter().all(|p| p.len() > 0 && p != ":")
+                    {
+                        b.command = pieces;
+                        done = true;
+                        break;
+                    }
+                }
+            }
+            if done { "command-characters-cut-differently" } else { "none" }
+        },
         14 | 15 =>
         {
             // the same characters cut differently: [a, bc] vs [ab, c] - the entries written back to back spell the same string
